@@ -43,13 +43,34 @@ IMPORTS = {
 }
 
 
+def cyclic(files_imports):
+    """True if the import statements chosen for the files (path -> list of option indices) form a cycle.  Import cycles
+    are outside the property (Python itself only half-supports them and pyscript recurses without end)."""
+    graph = {}
+    for path, idxs in files_imports.items():
+        graph[FILES[path][0]] = {t for i in idxs for t in IMPORTS[path][i][1]}
+    state = {}
+
+    def visit(n):
+        if state.get(n) == 1:
+            return True
+        if state.get(n) == 2:
+            return False
+        state[n] = 1
+        for m_ in graph.get(n, ()):
+            if visit(m_):
+                return True
+        state[n] = 2
+        return False
+
+    return any(visit(n) for n in list(graph))
+
+
 def no_cycle(path, imports, files_imports):
-    """m1 -> pkg and pkg.sub -> m1 must not both be present."""
-    sub_imports_m1 = bool(files_imports.get("modules/pkg/sub.py")) if path != "modules/pkg/sub.py" else bool(imports)
-    m1_imports_pkg = bool(files_imports.get("modules/m1.py")) if path != "modules/m1.py" else bool(imports)
-    if sub_imports_m1 and m1_imports_pkg:
-        return []
-    return imports
+    """The generated import options of `path`, or none if they would close an import cycle."""
+    trial = dict(files_imports)
+    trial[path] = imports
+    return [] if cyclic(trial) else imports
 
 
 def source(path, gen, imports):
@@ -331,6 +352,18 @@ async def execute(case, variant=False):
 
 class C10(ModelCheck):
     prop = PROP
+
+    def valid(self, case):
+        """A reduced history must not contain an import cycle at any point (the generator never produces one)."""
+        cur = {p: f["imports"] for p, f in case["initial"].items()}
+        if cyclic(cur):
+            return False
+        for op in case["ops"]:
+            if op["op"] in ("modify", "create"):
+                cur[op["path"]] = op["imports"]
+                if cyclic(cur):
+                    return False
+        return True
     rule = (
         "file trees over pyscript/a.py, b.py, scripts/s1.py, scripts/sub/s2.py, apps/app12.py (single-file app whose name has the app package's name as a prefix), modules m12 (prefix m1) and m3 (leaf below a diamond), apps/app1/__init__.py + helper.py, modules/m1.py, "
         "modules/pkg/__init__.py + sub.py (each present or not) with generated import edges (import m, from m import x, "
